@@ -57,7 +57,17 @@ func Eval(s Stmt, d V) (Tri, Why) {
 		}
 		switch s.Kind {
 		case "==":
-			if hasNaN(s.Val) || hasNaN(v) || hasUint(s.Val) || hasUint(v) {
+			if hasNaN(s.Val) || hasNaN(v) {
+				return Unresolved, WUnspecified
+			}
+			if hasUint(s.Val) || hasUint(v) {
+				// an integer above MaxInt64 next to a value of another scalar kind or another
+				// integer value is certainly different; anything else with such integers is left open
+				a, b := s.Val, v
+				scalar := func(x V) bool { return x.K != KList && x.K != KMap }
+				if scalar(a) && scalar(b) && !(a.K == KUint && b.K == KUint && a.U == b.U) {
+					return False, WNone
+				}
 				return Unresolved, WUnspecified
 			}
 			return b2t(Equal(s.Val, v)), WNone
@@ -76,12 +86,33 @@ func Eval(s Stmt, d V) (Tri, Why) {
 				return b2t(cmpOK(s.Kind, cmpInt(v.I, s.Val.I))), WNone
 			}
 			if s.Val.K == KFloat && v.K == KFloat {
-				if math.IsNaN(v.F) || math.IsNaN(s.Val.F) || math.IsInf(v.F, 0) || math.IsInf(s.Val.F, 0) {
-					return Unresolved, WUnspecified
+				if math.IsNaN(v.F) || math.IsNaN(s.Val.F) {
+					// no ordering holds with NaN, under the classical reading as well as under the
+					// implementation's documented one (non-finite operands never satisfy an ordering)
+					return False, WNone
+				}
+				if math.IsInf(v.F, 0) || math.IsInf(s.Val.F, 0) {
+					return Unresolved, WUnspecified // classical: ordered; documented choice: false
 				}
 				return b2t(cmpOK(s.Kind, cmpFloat(v.F, s.Val.F))), WNone
 			}
 			if s.Val.K == KUint || v.K == KUint {
+				// one operand above MaxInt64, the other an ordinary integer: the classical order is
+				// known; the implementation's documented reading (out-of-range integers satisfy no
+				// ordering) agrees with it exactly where the classical answer is "false"
+				if v.K == KUint && s.Val.K == KInt { // datum is the larger one
+					if s.Kind == "<" || s.Kind == "<=" {
+						return False, WNone
+					}
+				}
+				if s.Val.K == KUint && v.K == KInt { // datum is the smaller one
+					if s.Kind == ">" || s.Kind == ">=" {
+						return False, WNone
+					}
+				}
+				if (v.K == KUint && s.Val.K != KInt && s.Val.K != KUint) || (s.Val.K == KUint && v.K != KInt && v.K != KUint) {
+					return False, WNone // other kinds never order
+				}
 				return Unresolved, WUnspecified
 			}
 			return False, WNone
